@@ -3,6 +3,8 @@ from checks._topo_common import make_models, run_topo
 
 LEVEL = 'model_checking'
 MODELS = make_models('c07')
+for _m in MODELS.values():
+    _m.all_probes = True      # refused calls are calls too: what they leave behind is judged by the same rules
 REPLAY = MODELS
 
 
